@@ -2,7 +2,6 @@ package main
 
 import (
 	"fmt"
-	"go/constant"
 	"go/token"
 	"go/types"
 	"regexp"
@@ -124,29 +123,19 @@ func rulesC15(p *Prog, r *Report) {
 
 	// O1
 	n := 0
-	for _, f := range p.RList {
-		fb := bp.forFn(f)
-		for _, b := range f.Blocks {
-			for _, in := range b.Instrs {
-				c, ok := in.(*ssa.Call)
-				if !ok || c.Call.StaticCallee() == nil {
-					continue
-				}
-				name := c.Call.StaticCallee().String()
-				if name != "fmt.Sprintf" && name != "fmt.Errorf" {
-					continue
-				}
-				fc, ok := c.Call.Args[0].(*ssa.Const)
-				if !ok || fc.Value == nil || fc.Value.Kind() != constant.String {
-					continue
-				}
-				format := constant.StringVal(fc.Value)
+	sites, _ := messageSites(p, p.RList)
+	{
+		for _, site := range sites {
+			{
+				c, f := site.Call, site.Fn
+				fb := bp.forFn(f)
+				format := site.Format
 				if !offsetFmt.MatchString(format) {
 					continue
 				}
 				n++
 				key := fmt.Sprintf("%s|%q", p.shortKey(f), format)
-				ops := sprintfOperands(c)
+				ops := site.Ops
 				// which operand feeds the %d after "offset"
 				idx := verbIndex(format, "offset %d")
 				if idx < 0 || idx >= len(ops) {
